@@ -172,12 +172,18 @@ THEOREMS = [
     # sessions: a call is answered from the scalings the last state-changing call left, whatever came before
     'C09.session_reply_last', 'C09.session_state_after_reset', 'C09.session_state_after_rebase',
     'C09.session_state_after_failed_reset', 'C09.session_chosen_units_one', 'C09.session_conversion_invariant',
+    # rational exponents (Pa*m^0.5, MPa*m^(3/2), s^-1.5): rpow a parameter with the three laws of RpowLaws
+    'C09.rpow_rpow', 'C09.eval_dimension_hom_rpow', 'C09.eval_dimension_hom_ast_rpow', 'C09.same_dim_ratio_invariant_rpow',
+    'C09.set_get_inverse_parse_rpow', 'C09.dim_analysis_sound_rpow', 'C09.parse_rpow_extends', 'C09.track_rpow_extends',
+    'C09.session_conversion_invariant_rpow', 'C09.session_chosen_units_one_rpow',
     # generated tables: numericalunits table facts, LAMMPS style tables
     'C09.unit_table_ok', 'C09.style_table_dims', 'C09.style_table_names', 'C09.style_entry_scaling',
 ]
 PARTIAL = {}
 RULE = ('expression trees over {numeric literal, unit name, *, /, ^} generated to depth 6 (exponents: integer-valued '
-        'literals or small integer-valued sub-expressions, negative included), rendered by the harness with minimal '
+        'literals or small integer-valued sub-expressions, negative included; non-integer rationals written as literals '
+        '0.5 1.5 -2.5 .25 0.1 15e-1 … or parenthesised quotients (3/2) (-1/3) (3/-2) …, magnitude below and above one, both '
+        'signs; rational roots 4^0.5 as exponents), rendered by the harness with minimal '
         'parentheses plus random redundant parentheses and random runs of the four blank characters around every token, and '
         'by the model renderer (driver op rparse) with a uniform blank string; '
         'malformed stream = 1-2 character edits of valid renderings plus a fixed list; working-unit configurations = SI, '
@@ -197,11 +203,19 @@ RULE = ('expression trees over {numeric literal, unit name, *, /, ^} generated t
         'value (not an error case)')
 ASSUMPTIONS = [
     'x ** 0.5 in reset_units is a parameter r of the model with r*r = x and r != 0 (the harness feeds the double square root)',
+    'float ** float with a non-integer exponent is a parameter rpow : K -> Rat -> K of the model (numAlgR / trackAlgR) with '
+    'the assumed laws, for positive x, y: rpow x (a+b) = rpow x a * rpow x b, rpow (x*y) a = rpow x a * rpow y a, '
+    'rpow x 1 = x (RpowLaws; satisfied by the real power function: example over the reals in Proofs/C09.lean); everything '
+    'else about powers — positivity, agreement with integer powers, (x^a)^b = x^(a b) — is proved from them in an '
+    'ordered field; an integer-valued exponent never reaches rpow (exact integer power, any base); a non-integer '
+    'exponent needs a positive base (0 ** positive = 0, 0 ** negative raises, negative ** non-integer is a python '
+    'complex: no scaling factor, both sides answer "no value"); the driver runs rpow exactly when the power is rational '
+    'and to 2^-200 relative otherwise; exponents that are themselves irrational (m^(2^0.5)) are outside the model',
     'IEEE double rounding: each float operation of the implementation has relative error <= 2^-53, libm pow <= 2 ulp, '
     'every numericalunits value is within 16 roundings of const * m^a kg^b s^c C^d K^e; tolerances are derived from the '
     'expression tree by first-order propagation (no tuned constants); cases whose exact intermediate magnitudes leave '
     '[2^-830, 2^830] are not generated (overflow/underflow is outside the model)',
-    'non-integer exponents, the name rtHz (half-integral dimension), numerals beyond '
+    'the name rtHz (half-integral dimension of a table entry), numerals beyond '
     '[-]digits[.digits][e[+-]digits] (Python float() also reads 1_0, inf, nan, other Unicode digits), blank characters '
     'other than space/tab/CR/LF, and alphabets other than ASCII/Latin/Greek letters are outside the model',
     'malformed strings whose first token in a parenthesis group (or in the whole string) is ^ make uc.parse loop without '
@@ -217,6 +231,8 @@ ASSUMPTIONS = [
     'of putting working units in force (the only way to move K alone)',
 ]
 TRUSTED = ['numericalunits (the generated table is measured from the installed package on every run)', 'numpy broadcasting',
+           'the rational power of the model driver (lean/Drivers/C09.lean ratRpow: integer Newton root, exact or 2^-200) and the '
+           'decimal power of the search oracle (python decimal, 60 digits) — two independent implementations compared with libm pow',
            'the size guard of the model driver (lean/Drivers/C09.lean: a request whose exact value would need > 2*10^5 bits is '
            'answered err:size and not compared; every other request is evaluated by the proved numAlg)',
            'ast.literal_eval / float() on the modelled numerals', 'fractions.Fraction oracle in search()']
@@ -269,8 +285,14 @@ def _apply(cfg):
     k = cfg['kind']
     if k == 'SI':
         _timed(uc.reset_units, 'SI')
+    elif k == 'SI-kw':
+        _timed(uc.reset_units, seed='SI')
     elif k == 'seed':
         _timed(uc.reset_units, cfg['seed'])
+    elif k == 'seed-kw':
+        _timed(uc.reset_units, seed=cfg['seed'])
+    elif k == 'random':
+        _timed(uc.reset_units)            # no argument: numericalunits chooses random working units
     else:
         _timed(uc.reset_units, **cfg['kw'])
     return [float(getattr(nu, b)) for b in BASE]
@@ -401,9 +423,54 @@ def _mag_ok(v):
     return -830 < b < 830
 
 
+class Approx(Fraction):
+    """a value that is NOT exact: a non-integer power whose result is irrational, rounded to 60 significant digits
+    (far below the double rounding it is compared with).  Marker only: arithmetic is Fraction arithmetic."""
+    __slots__ = ()
+
+
+def _iroot(n, d):
+    """floor of the d-th root of the non-negative integer n (Newton, integers only)."""
+    if n < 2 or d == 1:
+        return n
+    x = 1 << (-(-n.bit_length() // d) + 1)
+    while True:
+        y = ((d - 1) * x + n // x ** (d - 1)) // d
+        if y >= x:
+            return x
+        x = y
+
+
+def rat_pow(v, q):
+    """v ** q for a positive Fraction v and a non-integer Fraction q: the exact Fraction when numerator and denominator
+    of v ** q.numerator are perfect q.denominator-th powers, else an `Approx` (decimal arithmetic, 60 digits:
+    independent of libm)."""
+    import decimal
+    y = v ** q.numerator
+    d = q.denominator
+    ra, rb = _iroot(y.numerator, d), _iroot(y.denominator, d)
+    if ra ** d == y.numerator and rb ** d == y.denominator:
+        return Fraction(ra, rb)
+    with decimal.localcontext() as c:
+        c.prec = 60
+        c.Emax, c.Emin = 999999, -999999
+        dv = decimal.Decimal(v.numerator) / decimal.Decimal(v.denominator)
+        r = dv ** (decimal.Decimal(q.numerator) / decimal.Decimal(q.denominator))
+    return Approx(Fraction(r))
+
+
+MAX_EXP = 12          # |exponent| of a power
+MAX_EXP_DEN = 1000    # denominator of a non-integer exponent (0.5 = 1/2, 0.1 = 1/10, 1.25 = 5/4, 1e-3 = 1/1000)
+
+
 def ev(t, vals, dims, name_err):
-    """-> (exact value, dimension, first-order rounding bound in units of 2^-53) of the float evaluation of the tree in
-    the order the grammar prescribes. vals: name -> Fraction, dims: name -> 5-tuple (None: do not track)."""
+    """-> (value, dimension, first-order rounding bound in units of 2^-53) of the float evaluation of the tree in
+    the order the grammar prescribes. vals: name -> Fraction, dims: name -> 5-tuple (None: do not track).
+    The value is the exact Fraction, or an `Approx` once an irrational power occurred; the dimension exponents are
+    exact (ints / Fractions): `MPa*m^0.5` has dimension (-1/2, 1, -2, 0, 0).  Exponents: any dimensionless
+    sub-expression with an exact rational value q, |q| <= 12; integer q: any base; non-integer q: positive base
+    (0 ** positive = 0; 0 ** negative and negative ** non-integer have no real value).  Rounding bound of a ** q
+    computed in doubles from a (ea roundings) and q (eb roundings): |q| ea + |q ln a| eb + 2."""
     k = t[0]
     if k == 'num':
         v = lit_value(t[1])
@@ -416,6 +483,7 @@ def ev(t, vals, dims, name_err):
         return vals[t[1]], (dims[t[1]] if dims is not None else ZERO5), name_err
     va, da, ea = ev(t[1], vals, dims, name_err)
     vb, db, eb = ev(t[2], vals, dims, name_err)
+    inexact = isinstance(va, Approx) or isinstance(vb, Approx)
     if k == 'mul':
         v, d, e = va * vb, tuple(x + y for x, y in zip(da, db)), ea + eb + 1
     elif k == 'div':
@@ -423,16 +491,40 @@ def ev(t, vals, dims, name_err):
             raise EvalErr('zerodiv')
         v, d, e = va / vb, tuple(x - y for x, y in zip(da, db)), ea + eb + 1
     else:
-        if vb.denominator != 1 or db != ZERO5 or not _exact_small(t[2]):
-            raise Outside('exponent')
-        n = int(vb)
-        if abs(n) > 12:
+        if tuple(db) != ZERO5:
+            raise Outside('exponent with a dimension')
+        if isinstance(vb, Approx):
+            raise Outside('irrational exponent')
+        q = Fraction(vb)
+        if abs(q) > MAX_EXP or q.denominator > MAX_EXP_DEN:
             raise Outside('exponent size')
-        if va == 0 and n < 0:
-            raise EvalErr('zeropow')
-        v, d, e = va ** n, tuple(n * x for x in da), abs(n) * ea + 2
+        if va == 0:
+            lna = 0.0
+        else:
+            lna = (abs(va.numerator.bit_length() - va.denominator.bit_length()) + 1) * 0.6932
+        if eb and (va < 0 or float(abs(q)) * lna * eb > 2 ** 20):
+            raise Outside('inexact exponent of a negative base')
+        if q.denominator == 1:
+            n = int(q)
+            if va == 0 and n < 0:
+                raise EvalErr('zeropow')
+            v = va ** n
+        else:
+            if va < 0:
+                raise EvalErr('negative base, non-integer exponent (python: complex)')
+            if va == 0:
+                if q < 0:
+                    raise EvalErr('zeropow')
+                v = Fraction(0)
+            else:
+                v = rat_pow(Fraction(va), q)
+                inexact = inexact or isinstance(v, Approx)
+        d = tuple(q * x for x in da)
+        e = float(abs(q)) * ea + float(abs(q)) * lna * eb + 2
     if not _mag_ok(v):
         raise Outside('magnitude')
+    if inexact and not isinstance(v, Approx):
+        v = Approx(v)
     return v, d, e
 
 
@@ -449,8 +541,39 @@ def _exact_small(t):
             v, _, _ = ev(t, {}, None, 0.0)
     except (EvalErr, Outside):
         return False
+    if isinstance(v, Approx):
+        return False
     d = v.denominator
     return d & (d - 1) == 0 and d <= 2 ** 20 and abs(v.numerator) < 2 ** 40
+
+
+def exp_tree(rng, q):
+    """a way of writing the rational exponent q: a literal when it is a short decimal, or a parenthesised quotient."""
+    q = Fraction(q)
+    if q.denominator == 1:
+        return ('num', str(int(q)))
+    forms = [('div', ('num', str(q.numerator)), ('num', str(q.denominator)))]
+    dec = _short_decimal(q)
+    if dec is not None:
+        forms.append(('num', dec))
+    return rng.choice(forms) if rng is not None else forms[-1]
+
+
+def _short_decimal(q):
+    d = q.denominator
+    while d % 2 == 0:
+        d //= 2
+    while d % 5 == 0:
+        d //= 5
+    if d != 1:
+        return None
+    k = 0
+    while (q * 10 ** k).denominator != 1:
+        k += 1
+    n = int(q * 10 ** k)
+    sgn = '-' if n < 0 else ''
+    digs = str(abs(n)).rjust(k + 1, '0')
+    return sgn + digs[:-k] + '.' + digs[-k:] if k else sgn + digs
 
 
 def shadow_parse(s):
@@ -536,20 +659,40 @@ def lit_ok(w):
 
 NUMS = ['2', '3', '10', '5', '7', '0.5', '2.5', '.25', '1.', '4.0', '1e3', '1e-3', '2E2', '1.5e+2', '1e-21', '1e-18',
         '0.1', '12', '100', '-2', '-1', '-0.5', '1', '6.02e23', '1.602e-19', '-3', '8', '0.125', '16', '1e0', '9', '0',
-        '007', '010', '00.5', '-0', '-.5', '5.', '1E+2', '1e+02', '1e-03', '0e0', '0.0', '-08', '2.50', '1E0', '000']
+        '007', '010', '00.5', '-0', '-.5', '5.', '1E+2', '1e+02', '1e-03', '0e0', '0.0', '-08', '2.50', '1E0', '000',
+        # factors a hair off one (absolute / relative tolerances hidden in shortcuts), extreme but representable exponents
+        '1.000001', '0.999999', '1.0000000001', '0.99999999', '-1.00001', '1e-30', '1E30', '2.5e-25', '1.0e+21', '123456789e-8']
 EXPS = ['2', '3', '-1', '-2', '-3', '1', '2', '2', '-1', '3', '0', '2.0', '-2.0', '1e0', '2e0', '4', '-4', '02', '-01', '2.']
+# non-integer exponents, literal: magnitude below and above one, both signs, dyadic (exact doubles) and not
+FRAC_EXPS = ['0.5', '1.5', '2.5', '-0.5', '-1.5', '-2.5', '.5', '-.5', '0.25', '0.75', '1.25', '-0.25', '3.5', '-3.5',
+             '0.125', '1.75', '5e-1', '15e-1', '-15E-1', '2.5e0', '0.1', '1.2', '-0.3', '2.4', '0.50', '01.5', '1.50',
+             '0.2', '-1.1', '4.5', '0.05e1', '25e-2']
+# … and as parenthesised quotients (numerator, denominator)
+FRAC_QUOT = [(1, 2), (3, 2), (5, 2), (-1, 2), (-3, 2), (-5, 2), (1, 3), (2, 3), (4, 3), (-1, 3), (-4, 3), (1, 4), (3, 4),
+             (5, 4), (7, 2), (1, -2), (3, -2), (-3, -2), (5, 3), (1, 5), (6, 4), (2, 4), (9, 6), (7, 3), (-7, 4)]
 
 
 def gen_exp(rng):
     r = rng.random()
-    if r < 0.8:
+    if r < 0.52:
         return ('num', rng.choice(EXPS))
-    if r < 0.87:
+    if r < 0.57:
         a = rng.choice([2, 4, 6, -4, -6, 8])
         return ('div', ('num', str(a)), ('num', '2'))
-    if r < 0.94:
+    if r < 0.62:
         return ('mul', ('num', rng.choice(['-1', '1', '2'])), ('num', rng.choice(['1', '2', '-1'])))
-    return ('pow', ('num', rng.choice(['2', '-1', '1'])), ('num', rng.choice(['1', '2'])))
+    if r < 0.66:
+        return ('pow', ('num', rng.choice(['2', '-1', '1'])), ('num', rng.choice(['1', '2'])))
+    if r < 0.82:
+        return ('num', rng.choice(FRAC_EXPS))
+    if r < 0.95:
+        a, b = rng.choice(FRAC_QUOT)
+        return ('div', ('num', str(a)), ('num', str(b)))
+    if r < 0.98:       # a product / power that is a non-integer rational: 0.5*3, 3*0.5, 0.5^2, (1/2)^-1*0.75
+        return rng.choice([('mul', ('num', '0.5'), ('num', '3')), ('mul', ('num', '3'), ('num', '0.5')),
+                           ('pow', ('num', '0.5'), ('num', '2')), ('mul', ('num', '-1'), ('num', '1.5')),
+                           ('div', ('num', '1.5'), ('num', '2')), ('div', ('num', '3'), ('num', '0.5'))])
+    return ('pow', ('num', rng.choice(['4', '0.25', '9', '2.25'])), ('num', rng.choice(['0.5', '-0.5', '1.5'])))   # rational root
 
 
 def gen_tree(rng, depth, names, pleaf=0.18):
@@ -648,7 +791,15 @@ MALFORMED = ['', ' ', '()', '( )', '(', ')', '2 3', 'm s', '2*', '*2', '/2', '2/
              '2 ^ * 3', '2 * ^ 3', '(2', '2)', '((2)', '(2))', '2(3)', '(2)(3)', 'm(s)', '2m', 'm2', '+2', '2+3', '1-2',
              '--2', '-', '.', '-.', '1e', 'e5', '1e+', '1.2.3', '2 /0', '0^-1', '2/(3-3)', 'm^s', '2^0.5', 'notaunit',
              'kg*notaunit', 'm^(1/2)', '#', 'm#', '2,3', '[2]', '2 * (3 / )', '( * 3)', 'm/(s*)', '2^(^2)', '*', '/',
-             'scaled', 'scaled*2', '2*scaled', '0x10', '1__0', 'm^-', 'm^-s', '1/0.0', '(((((2)))))', '2^-2^-2']
+             'scaled', 'scaled*2', '2*scaled', '0x10', '1__0', 'm^-', 'm^-s', '1/0.0', '(((((2)))))', '2^-2^-2',
+             # python-style power, signs after an operator, scientific notation glued to names, case, prefixes of names
+             'm**2', 'm ** 2', '2**0.5', 'm^+2', 'm^ -2', 'm^- 2', 'm/-2', 'm/ -2', 'm*-1', 'm/+2', '-m', '- 2', '-(2)',
+             '1e3m', '1e3*m', '1E3*m', '1e+3*m', '1e-3*m', '1.e3', '.5e1', '5.e-1', '1e3.5', '1e', '1e+', 'E3', '2e', '2e3e4',
+             '1d3', '1e 3', '1 e3', 'M', 'KG', 'Kg', 'kG', 'EV', 'ev', 'Ev', 'PA', 'pa', 'GPA', 'gpa', 'ANGSTROM', 'Angstrom',
+             'J', 'j', 'Nm', 'nM', 'mM', 'MM', 'mm', 'Mm', 'k', 'K', 'c', 'C', 'S', 's', 'mmm', 'kgg', 'kgs', 'eVV', 'eV2',
+             'angstro', 'angstroms', 'am', 'amuu', 'p', 'ps', 'pss', 'fss', 'Paa', 'GPaa', 'G', 'GP', 'me', 'mee', 'kB', 'kb',
+             'KB', 'hbar', 'Hbar', 'HBAR', 'm^0.5.5', 'm^(1/2', 'm^1/2)', 'm^(1/)', 'm^(/2)', 'm^1.5.', 'm^.', 'm^-.',
+             '-2^0.5', '(-8)^(1/3)', '0^-0.5', '0^(-1/2)', '(2-2)^0.5', 'm^(1/0)', 'm^(0/0)', '-1^1.5', '-4^-0.5', '-1^(2/3)']
 _HANG = re.compile(r'^\^|\(\^')
 _SOLEOP = re.compile(r'\([*/]\)')
 _WEIRDNUM = re.compile(r'-(inf|nan)|_|[eE][+-]?\d{4,}', re.I)
@@ -730,6 +881,31 @@ def _real_parse(uc, s):
     return r
 
 
+def _real_parse_raw(uc, s):
+    """like _real_parse, but a non-finite or non-real result is reported as it is (for the refusal clause: `inf` from
+    an overflow is not an acceptance)."""
+    try:
+        r = _timed(uc.parse, s)
+    except Exception:  # noqa
+        return 'err'
+    if isinstance(r, bool) or not isinstance(r, (int, float)) or r != r or r in (float('inf'), float('-inf')):
+        return 'err'
+    return r
+
+
+def _why_no_value(s, vals):
+    tree = shadow_parse(s)
+    if tree is None:
+        return 'operand / operator missing, unbalanced parentheses or unknown character'
+    try:
+        ev(tree, vals, None, 0.0)
+    except EvalErr as ex:
+        return str(ex)
+    except Outside as ex:
+        return str(ex)
+    return ''
+
+
 def _f(x):
     """float for messages (huge/tiny exact values do not convert)."""
     try:
@@ -764,8 +940,15 @@ def _configs(ctx, rng, n_seed, n_named):
 def _cfg_str(cfg):
     if cfg['kind'] == 'SI':
         return "reset_units('SI')"
+    if cfg['kind'] == 'SI-kw':
+        return "reset_units(seed='SI')"
     if cfg['kind'] == 'seed':
         return f"reset_units({cfg['seed']})"
+    if cfg['kind'] == 'seed-kw':
+        return f"reset_units(seed={cfg['seed']})"
+    if cfg['kind'] == 'random':
+        return 'reset_units()'
+
     return 'reset_units(' + ', '.join(f'{k}={v!r}' for k, v in cfg['kw'].items()) + ')'
 
 
@@ -863,8 +1046,18 @@ def gen_strings(rng, names, vals, n_valid, n_bad):
             pass
         out.append(('parse', s, tree))
     for _ in range(n_bad):
-        if rng.random() < 0.25:
+        r = rng.random()
+        if r < 0.25:
             s = rng.choice(MALFORMED)
+        elif r < 0.4:
+            # a known name changed in case, shortened, lengthened or glued to a number, alone or inside an expression
+            # (whether the result is still a name is for the table to say)
+            n = rng.choice(names)
+            n2 = rng.choice([n.upper(), n.lower(), n.swapcase(), n.capitalize(), n[:-1], n[1:], n + n[-1], n + rng.choice('smgKeVa2_'),
+                             rng.choice('mkMGunpf') + n, '2' + n, n + '2', n + '.', '1e3' + n, n + '(2)', n.title()])
+            tree = gen_tree(rng, rng.choice([0, 1, 2]), names)
+            s = render(rng, tree, 2, messy=rng.choice([0.0, 0.4])).replace(rng.choice(_names_of(tree) or ['\0']), n2, 1) \
+                if rng.random() < 0.6 else n2
         else:
             tree = gen_tree(rng, rng.choice([1, 2, 3, 4]), names)
             s = mutate(rng, render(rng, tree, 2, messy=rng.choice([0.0, 0.4]), extra=rng.choice([0.0, 0.2])))
@@ -903,6 +1096,59 @@ def _corr_parse(ctx, rng, uc, cfg, n_valid, n_bad):
         if msg:
             ctx.disagree(kind, f'uc.parse({s!r}) after {_cfg_str(cfg)}: {msg}',
                          {'op': 'parse', 'cfg': cfg, 'string': s, 'impl': impl, 'model': out})
+
+
+def _corr_track(ctx, rng, n):
+    """the tracked model (`trackAlgR`: SI value and rational dimension) and the kernel-decidable dimension analysis
+    (`qdimAlg`) against the harness's exact evaluation, on grammar renderings — non-integer exponents included."""
+    t = _tab()
+    items = []
+    tries = 0
+    while len(items) < n and tries < 20 * n:
+        tries += 1
+        tree = gen_tree(rng, rng.choice([1, 2, 3, 4, 5]), t.names, pleaf=0.2)
+        try:
+            v, d, e = ev(tree, t.si, t.dims, 0.0)
+        except (Outside, EvalErr):
+            continue
+        items.append((render(rng, tree, 2, messy=rng.choice([0.0, 0.4]), extra=rng.choice([0.0, 0.2])), v, d))
+    for s1, s2 in SAME_DIM:
+        for x in (s1, s2):
+            try:
+                v, d, e = ev(shadow_parse(x), t.si, t.dims, 0.0)
+                items.append((x, v, d))
+            except (Outside, EvalErr):
+                pass
+    outs = ctx.driver.ask_many(['track ' + _cps(s) for s, _, _ in items])
+    douts = ctx.driver.ask_many(['dim ' + _cps(s) for s, _, _ in items])
+    for (s, v, d), out, dout in zip(items, outs, douts):
+        frac = any(Fraction(x).denominator != 1 for x in d)
+        ctx.stats.case('track', s, sample={'string': s, 'dim': [str(x) for x in d]} if frac else None)
+        if out == 'err:size':
+            continue
+        toks = out.split()
+        md = tuple(Fraction(x) for x in toks[1:6]) if len(toks) == 6 else None
+        if md != tuple(Fraction(x) for x in d):
+            ctx.disagree('track:dimension', f'{s!r}: tracked model dimension {toks[1:]}, ordinary-grammar dimension '
+                         f'{[str(x) for x in d]}', {'op': 'parse', 'cfg': {'kind': 'SI'}, 'string': s})
+            continue
+        if abs(Fraction(toks[0]) - v) > Fraction(1, 10 ** 40) * abs(v):
+            ctx.disagree('track:value', f'{s!r}: tracked model SI value {_f(Fraction(toks[0]))!r}, exact {_f(v)!r}',
+                         {'op': 'parse', 'cfg': {'kind': 'SI'}, 'string': s})
+        dt = dout.split()
+        if dout.startswith('err:') and _pow_in_exponent(shadow_parse(s)):
+            continue            # 4^0.5 as an exponent: a value the dimension analysis does not know (it may refuse)
+        if dout.startswith('err:') or tuple(Fraction(x) for x in dt[:5]) != md:
+            ctx.disagree('track:dim-analysis', f'{s!r}: dimension analysis {dout}, tracked model {toks[1:]}',
+                         {'op': 'parse', 'cfg': {'kind': 'SI'}, 'string': s})
+
+
+def _pow_in_exponent(t, inside=False):
+    if t is None or t[0] in ('num', 'name'):
+        return False
+    if t[0] == 'pow':
+        return inside or _pow_in_exponent(t[1], inside) or _pow_in_exponent(t[2], True)
+    return _pow_in_exponent(t[1], inside) or _pow_in_exponent(t[2], inside)
 
 
 def _prefix(t):
@@ -973,7 +1219,7 @@ def _corr_convert(ctx, rng, uc, cfg, n):
             continue
         s = render(rng, tree, 2, messy=rng.choice([0.0, 0.5]), extra=rng.choice([0.0, 0.2]))
         shape = rng.choice([sh for sh in SHAPES if 0 not in sh])
-        form = rng.choice(FORMS)
+        form = rng.choice([f for f in FORMS if f not in ('float32-array', 'np32-scalar', 'scaled-array')])
         cnt = int(np.prod(shape)) if shape else 1
         xs = gen_values(rng, form, cnt)
         arg, arr = make_arg(np, xs, shape, form)
@@ -1233,7 +1479,13 @@ POOL_SRC = ['m', 'kg', 's', 'C', 'K', 'angstrom', 'nm', 'amu', 'g', 'ps', 'fs', 
             'W/(m*K)', 'kg*m^2/s^2', 'amu*angstrom^2/ps^2', '(eV/angstrom^3)', 'C^2*s^2/(kg*m^3)', 'A*s', 'C/kg', 'e/amu',
             'V*s/m^2', 'K^-1', '2*K^2', 'm^-1*s', 'g/cm^3', 'amu/angstrom^3', 'angstrom/ps', 'm/s', 'kg*m/s^2', 'dyn',
             '(C)', ' C ', 'C^2', '1/C', '1/K', 'K*K', 's^-2', 'kg^-1', 'm^3', '2^3', '10', 'eV*s', 'hbar/ps', '(m)', '(kg)',
-            '(s)', '(K)', 'e*V', 'uC/e', 'mK/K', '1.5 * ( kB * K ) / eV', 'J/s', 'W', 'kg/s', 'm*kg', 'K*C', 'm*s*kg*C*K']
+            '(s)', '(K)', 'e*V', 'uC/e', 'mK/K', '1.5 * ( kB * K ) / eV', 'J/s', 'W', 'kg/s', 'm*kg', 'K*C', 'm*s*kg*C*K',
+            # non-integer exponents, literal and parenthesised, below and above one, both signs, every base dimension
+            'm^1.5', 'cm^1.5', 'm^(3/2)', 'm*m^0.5', 'angstrom^1.5', 'nm^(3/2)', '(m^3)^0.5', 'MPa*m^0.5', 'Pa*mm^0.5',
+            'GPa*nm^1.5', 'MPa*m^(1/2)', 'kg/(m^0.5*s^2)', 'N/m^1.5', 's^-1.5', 'ps^(-3/2)', 's^-0.5', 'Hz^0.5', 'kg^0.5',
+            'amu^(1/2)', 'g^.5', 'C^1.5', 'e^(3/2)', 'C^-0.5', 'e^-.5', 'K^0.5', 'mK^(1/2)', 'K^2.5', 'K^(5/2)',
+            'eV^0.5', 'J^(1/2)', 'm^(1/3)', 'angstrom^(1/3)', 'm^-2.5', 'nm^(-5/2)', 'kg^1.5', 'amu^(3/2)', 's^2.5',
+            'fs^(5/2)', '(eV/angstrom^3)^0.5', 'GPa^(1/2)', 'm^0.25', 'angstrom^(1/4)', '2^0.5', '4^0.5', '2^-1.5']
 K_NAMES = ['K', 'mK', 'uK', 'nK']
 _FRESH = [0]
 
@@ -1312,8 +1564,8 @@ def core_configs():
         _L(mass=u, time=p, energy='eV', charge=e),              # energy fixes the length unit
         _L(mass=u, time=p, energy='J', charge=e),               # only m moves
         _L(charge='e'), _L(energy='eV'),
-        {'kind': 'SI'},
-        {'kind': 'seed', 'seed': 12345}, {'kind': 'seed', 'seed': 54321},
+        {'kind': 'SI'}, {'kind': 'SI-kw'}, {'kind': 'random'},
+        {'kind': 'seed', 'seed': 12345}, {'kind': 'seed-kw', 'seed': 54321},
         {'kind': 'direct', 'scales': [ang, 6.0221407e26, 1e12, 1.0, 1.0]},
         {'kind': 'direct', 'scales': [ang, 6.0221407e26, 1e12, 1.0, 1000.0]},     # only K
         {'kind': 'direct', 'scales': [1.0, 1.0, 1.0, 1.0, 0.25]},                # SI but for K
@@ -1354,9 +1606,10 @@ def one_key_walk(rng, t, steps):
     while len(out) < steps:
         r = rng.random()
         if r < 0.06:
-            out.append({'kind': 'SI'})
+            out.append({'kind': rng.choice(['SI', 'SI', 'SI-kw'])})
         elif r < 0.12:
-            out.append({'kind': 'seed', 'seed': rng.randrange(1, 10 ** 6)})
+            out.append(rng.choice([{'kind': 'seed', 'seed': rng.randrange(1, 10 ** 6)}, {'kind': 'random'},
+                                   {'kind': 'seed-kw', 'seed': rng.randrange(1, 10 ** 6)}]))
         elif r < 0.18:
             out.append({'kind': 'direct-k', 'k': rng.choice([0.25, 4.0, 1000.0, 1e-3, 3.0])})
         elif r < 0.22:
@@ -1365,7 +1618,7 @@ def one_key_walk(rng, t, steps):
             out.append({'kind': 'fail', 'kw': bad, 'leaves': 'SI'})
         elif r < 0.25:
             out.append({'kind': 'fail', 'kw': {k: rng.choice(t.by_kind[k]) for k in KINDS}, 'leaves': 'same'})
-        elif r < 0.33 and len(out) >= 2 and out[-2]['kind'] in ('named', 'SI', 'seed'):
+        elif r < 0.33 and len(out) >= 2 and out[-2]['kind'] in ('named', 'SI', 'seed', 'SI-kw', 'seed-kw'):
             out.append(dict(out[-2]))               # there and back
             if out[-1]['kind'] == 'named':
                 kw = dict(out[-1]['kw'])
@@ -1463,7 +1716,7 @@ class _Session:
         k = cfg['kind']
         if k == 'named':
             return predict_scales(cfg['kw'], self.t.si)
-        if k == 'SI':
+        if k in ('SI', 'SI-kw'):
             return [1.0] * 5
         if k == 'direct':
             return list(cfg['scales'])
@@ -1492,7 +1745,7 @@ class _Session:
             (self._viol if self.mode == 'search' else self._dis)(
                 'session:reset-raises', f'{_cfg_str_any(cfg)} raises {type(got).__name__}: {got}')
             return None
-        if cfg['kind'] == 'seed':
+        if cfg['kind'] in ('seed', 'seed-kw', 'random'):
             want_sc = got                      # numericalunits' own choice
         real = {k: float(v) for k, v in uc.unit.items()}
         vals = {k: Fraction(v) for k, v in real.items()}
@@ -1542,6 +1795,18 @@ class _Session:
 
     # -- the property's clauses on the real code -------------------------------------------------------------------
     def _oracle(self, cfg, rng, want_sc, real, vals, n_fresh, n_pairs, np):
+        try:
+            self._oracle_reads(cfg, rng, want_sc, real, vals, n_fresh, n_pairs, np)
+        finally:
+            # reads must not write: the table (and numericalunits' base units) are what the configuration left
+            import numericalunits as nu
+            now = {k: float(v) for k, v in self.uc.unit.items()}
+            if now != real:
+                ch = sorted(k for k in set(now) | set(real) if now.get(k) != real.get(k))
+                self._viol('session:read-writes', f'evaluating expressions after {_cfg_str_any(cfg)} changed uc.unit: '
+                           f'{len(ch)} entries, e.g. unit[{ch[0]!r}] {real.get(ch[0])!r} -> {now.get(ch[0])!r}', ch[:3])
+
+    def _oracle_reads(self, cfg, rng, want_sc, real, vals, n_fresh, n_pairs, np):
         ctx, uc, t = self.ctx, self.uc, self.t
         # (a) the table is const * prod(base^dim) for the scalings this configuration demands
         if want_sc is not None and all(x > 0 for x in want_sc):
@@ -1757,6 +2022,7 @@ def correspond(ctx):
             _corr_lean_render(ctx, rng, uc, cfg, per // 4)
             _corr_convert(ctx, rng, uc, cfg, ctx.n(120, 800))
         _corr_styles(ctx, uc)
+        _corr_track(ctx, rng, ctx.n(400, 3000))
         # uc.parse(None) / numbers pass through
         for u, want in ((None, 1), ('scaled', 1), (2.5, 2.5), (3, 3)):
             r = uc.parse(u)
@@ -1844,6 +2110,16 @@ def _shrink(uc, t, vals):
 def _o_parse(ctx, uc, cfg, s, vals):
     """precedence clause: the string, read in the ordinary grammar by the harness, has the value the code returns."""
     cls = classify(s, vals, 0.0)
+    if cls[0] in ('reject', 'err'):
+        # refusals: a string that is not an expression of the grammar (operand or operator missing, unbalanced
+        # parentheses, unknown character) or that has no value (unknown name, division by zero, 0 ** negative, a
+        # negative base under a non-integer exponent) must not be given a number
+        impl = _real_parse_raw(uc, s)
+        if impl != 'err':
+            why = 'is not an expression of the grammar' if cls[0] == 'reject' else 'has no value'
+            ctx.violate('parse:accepts', f'uc.parse({s!r}) after {_cfg_str(cfg)} returns {impl!r}; the string {why} '
+                        f'({_why_no_value(s, vals)})', {'op': 'parse', 'cfg': cfg, 'string': s})
+        return
     if cls[0] != 'val':
         return
     impl = _real_parse(uc, s)
@@ -1865,7 +2141,9 @@ def _o_parse(ctx, uc, cfg, s, vals):
                     f'expression is {tree_str(cls[3]) if cls[3] else s} = {_f(v)!r}', dict(replay, impl=impl, expected=_f(v)))
 
 
-FORMS = ['array', 'array', 'list', 'tuple', 'int-array', 'int32-array', 'int-list', 'mixed-list', 'np-scalar']
+FORMS = ['array', 'array', 'list', 'tuple', 'int-array', 'int32-array', 'int-list', 'mixed-list', 'np-scalar',
+         'view', 'readonly', 'fortran', 'float32-array', 'scaled-array', 'scaled-array', 'np32-scalar']
+U32 = 2.0 ** -24
 SHAPES = [(), (), (3,), (2, 2), (2, 1, 3), (1,), (1, 1), (0,), (0, 3), (5,)]
 
 
@@ -1888,6 +2166,22 @@ def make_arg(np, xs, shape, form):
         return np.array(xs, dtype=np.int64).reshape(shape), ref
     if form == 'int32-array':
         return np.array(xs, dtype=np.int32).reshape(shape), ref
+    if form == 'view':                      # a strided, non-contiguous view into a larger array
+        big = np.full(tuple(2 * d for d in shape) if shape else (2,), 7.25)
+        v = big[tuple(slice(1, None, 2) for _ in shape)] if shape else big[1:2].reshape(())
+        v[...] = ref
+        return v, ref
+    if form == 'readonly':
+        a = ref.copy()
+        a.flags.writeable = False
+        return a, ref
+    if form == 'fortran':
+        return np.array(ref, order='F', copy=True), ref
+    if form == 'float32-array':
+        a = np.array(xs, dtype=np.float32).reshape(shape)
+        return a, a.astype(float)
+    if form == 'np32-scalar' and not shape:
+        return (np.int32(xs[0]) if isinstance(xs[0], int) else np.float32(xs[0])), np.asarray(np.float32(xs[0]), dtype=float)
     if form == 'tuple':
         return _nest(list(xs), tuple(shape), tuple), ref
     if form == 'np-scalar' and not shape:
@@ -1899,6 +2193,12 @@ def gen_values(rng, form, cnt):
     if form.startswith('int'):
         return [rng.choice([0, 1, -1, 2, 3, 7, -12, 100, rng.randint(-1000, 1000), 2 ** 31 - 1 if form == 'int32-array' else 2 ** 40])
                 for _ in range(cnt)]
+    if form == 'scaled-array':              # magnitudes swept by exact powers of two over the whole double range
+        return [math.ldexp(rng.choice([1.0, -1.0, 1.5, cm.dyadic(rng, 1, 2, 20), rng.uniform(1, 2)]), rng.randint(-1000, 1000))
+                for _ in range(cnt)]
+    if form in ('float32-array', 'np32-scalar'):
+        return [float(_np().float32(rng.choice([cm.dyadic(rng, -64, 64, 4), rng.uniform(-1e3, 1e3),
+                                                 rng.uniform(-1, 1) * 10.0 ** rng.randint(-6, 6)]))) for _ in range(cnt)]
     out = [rng.choice([cm.dyadic(rng, -64, 64, 4), rng.uniform(-1e3, 1e3), rng.uniform(-1, 1) * 10.0 ** rng.randint(-12, 12)])
            for _ in range(cnt)]
     if form == 'mixed-list':
@@ -1912,9 +2212,18 @@ def _same_arg(np, a, b):
     return type(a) is type(b) and a == b
 
 
+def _wide_ok(v, lim=1015):
+    if v == 0:
+        return True
+    b = v.numerator.bit_length() - v.denominator.bit_length()
+    return -lim < b < lim
+
+
 def _o_inverse(ctx, np, uc, cfg, s, xs, shape, form, vals=None):
-    """round trip, forward value (x times the exact factor), shape kept, the caller's object left alone —
-    for float and integer arrays, lists, tuples, scalars, one-element and empty arrays."""
+    """round trip, forward value (x times the exact factor), shape kept, the caller's object left alone, results
+    fresh (no memory shared with the argument or with each other; scribbling over a result does not change the next) —
+    for float / float32 / integer arrays, strided views, read-only and Fortran-ordered arrays, lists, tuples, python
+    and numpy scalars, one-element and empty arrays, magnitudes over the whole double range."""
     import copy
     if form is True or form is False:            # replays written before the forms existed
         form = 'list' if form else 'array'
@@ -1923,8 +2232,25 @@ def _o_inverse(ctx, np, uc, cfg, s, xs, shape, form, vals=None):
     ref = np.asarray(arg, dtype=float)           # (an empty nested list has shape (0,) whatever was asked for)
     keep = copy.deepcopy(arg)
     replay = {'op': 'inverse', 'cfg': cfg, 'units': s, 'value': xs, 'shape': list(shape), 'form': form}
-    w = _timed(uc.set_in_units, arg, s)
-    back = _timed(uc.get_in_units, w, s)
+    # the factor the ordinary grammar gives the expression
+    if s is None or s == 'scaled':
+        v, e = Fraction(1), 0.0
+    else:
+        cls = classify(s, vals if vals is not None else _unit_fr(uc), 0.0)
+        v, e = (cls[1], cls[2]) if cls[0] == 'val' else (None, 0.0)
+    f32 = getattr(arg, 'dtype', None) in (np.dtype('float32'), np.dtype('int32')) and form in ('float32-array', 'np32-scalar')
+    u = U32 if f32 else U
+    lim = 120 if f32 else 1015
+    style = (len(xs) + len(s or '') + (1 if xs and xs[0] > 0 else 0)) % 4       # how the call is written
+    if style == 1:                                   # keywords
+        w = _timed(uc.set_in_units, value=arg, units=s)
+        back = _timed(uc.get_in_units, units=s, value=w)
+    elif style == 2 and isinstance(s, str):          # the unit string as numpy hands strings out
+        w = _timed(uc.set_in_units, arg, np.str_(s))
+        back = _timed(uc.get_in_units, w, np.array([s])[0])
+    else:
+        w = _timed(uc.set_in_units, arg, s)
+        back = _timed(uc.get_in_units, w, s)
     if not _same_arg(np, arg, keep):
         ctx.violate('inverse:argument-changed', f'set_in_units / get_in_units({s!r}) change the value handed in: '
                     f'{keep!r} -> {arg!r}', replay)
@@ -1938,23 +2264,37 @@ def _o_inverse(ctx, np, uc, cfg, s, xs, shape, form, vals=None):
         ctx.violate('inverse', f'set_in_units/get_in_units({s!r}) of {xs} ({form}) return dtype {wa.dtype} / {back.dtype}',
                     replay)
         return
-    bad = [(x, b) for x, b in zip(ref.ravel().tolist(), back.ravel().tolist())
-           if not abs(b - x) <= 4 * U * abs(x)]
+    if isinstance(arg, np.ndarray) and arg.size and (np.shares_memory(wa, arg) or np.shares_memory(back, arg)
+                                                       or np.shares_memory(back, wa)):
+        ctx.violate('inverse:aliasing', f'set_in_units / get_in_units({s!r}) return an array that shares memory with the '
+                    f'argument or with each other ({form}, shape {ref.shape})', replay)
+        return
+    inside = [v is None and abs(x) < 2.0 ** 100 and not f32 or v is not None and _wide_ok(Fraction(x) * v, lim)
+              and _wide_ok(Fraction(x), lim) and _wide_ok(v, lim) for x in ref.ravel().tolist()]
+    bad = [(x, b) for x, b, ok in zip(ref.ravel().tolist(), back.ravel().tolist(), inside)
+           if ok and not abs(b - x) <= 4 * u * abs(x)]
     if bad:
         ctx.violate('inverse', f'get_in_units(set_in_units(x, {s!r}), {s!r}) after {_cfg_str(cfg)}: x = {bad[0][0]!r} '
                     f'({form}) comes back as {bad[0][1]!r}', replay)
         return
-    # forward: x times the factor the ordinary grammar gives the expression
-    if s is None or s == 'scaled':
-        v, e = Fraction(1), 0.0
-    else:
-        cls = classify(s, vals if vals is not None else _unit_fr(uc), 0.0)
-        if cls[0] != 'val':
+    got_fwd = wa.ravel().tolist()
+    # a second call after scribbling over the first result gives the first result again
+    if isinstance(w, np.ndarray) and w.size and w.flags.writeable:
+        first = wa.copy()
+        w[...] = -12345.5
+        w2 = np.asarray(_timed(uc.set_in_units, arg, s))
+        if not _same_arg(np, arg, keep) or w2.shape != first.shape or not np.array_equal(w2, first, equal_nan=True):
+            ctx.violate('inverse:aliasing', f'set_in_units({s!r}) ({form}, shape {ref.shape}): after overwriting the first '
+                        f'result the same call returns {w2.ravel().tolist()[:3]} instead of {first.ravel().tolist()[:3]}, '
+                        f'or the argument changed', replay)
             return
-        v, e = cls[1], cls[2]
-    for x, g in zip(ref.ravel().tolist(), wa.ravel().tolist()):
+    # forward: x times the factor
+    if v is None:
+        return
+    for x, g, ok in zip(ref.ravel().tolist(), got_fwd, inside):
         want = Fraction(x) * v
-        if _mag_ok(want) and not abs(Fraction(g) - want) <= Fraction(_tol(want, e + 1)):
+        tol = Fraction((e + 5.0) * 1.5 * u) * abs(want)
+        if ok and not abs(Fraction(g) - want) <= tol:
             ctx.violate('convert:value', f'set_in_units({x!r} ({form}), {s!r}) after {_cfg_str(cfg)} = {g!r}; '
                         f'{x!r} times the factor {_f(v)!r} is {_f(want)!r}', replay)
             return
@@ -1970,17 +2310,28 @@ def _base_expr(rng, t, dim):
         if n == 0:
             continue
         name = ('name', rng.choice(alt[i]))
+        n = Fraction(n)
+        if n.denominator != 1 and rng.random() < 0.4:      # m^(5/2) as m^2 * m^0.5
+            whole = n.numerator // n.denominator
+            if whole:
+                tree = ('mul', tree, ('pow', name, ('num', str(whole))))
+            n -= whole
         if rng.random() < 0.5:
-            tree = ('mul', tree, ('pow', name, ('num', str(n))))
+            tree = ('mul', tree, ('pow', name, exp_tree(rng, n)))
         else:
-            tree = ('div', tree, ('pow', name, ('num', str(-n))))
+            tree = ('div', tree, ('pow', name, exp_tree(rng, -n)))
     return tree
 
 
 SAME_DIM = [('dyn', 'kg*m/s^2'), ('eV', 'J'), ('Pa', 'N/m^2'), ('GPa', 'eV/angstrom^3'), ('mJ/s^2', 'W/s'),
             ('kcal/mol', 'eV'), ('atm', 'bar'), ('angstrom/ps', 'm/s'), ('g/cm^3', 'amu/angstrom^3'),
             ('Pa*s/10', 'pg/(um*us)'), ('hbar', 'J*s'), ('e*angstrom', 'debye'), ('V/angstrom', 'N/C'),
-            ('kB*K', 'eV'), ('2*Ry', 'Hartree'), ('mile/hour', 'foot/s'), ('psi', 'lbf/inch^2'), ('kWh', 'MJ')]
+            ('kB*K', 'eV'), ('2*Ry', 'Hartree'), ('mile/hour', 'foot/s'), ('psi', 'lbf/inch^2'), ('kWh', 'MJ'),
+            # non-integer exponents (fracture toughness and the like)
+            ('m^1.5', 'cm^1.5'), ('MPa*m^0.5', 'Pa*mm^0.5'), ('GPa*nm^1.5', 'N/m^(1/2)'), ('MPa*m^(1/2)', 'kg/(m^0.5*s^2)'),
+            ('s^-1.5', 'ms^(-3/2)'), ('m^(3/2)', 'm*m^0.5'), ('(m^3)^0.5', 'angstrom^1.5'), ('m^2.5/m^0.5', 'cm^2'),
+            ('eV^0.5', 'J^(1/2)'), ('(kg/m^3)^0.5', 'g^0.5/cm^1.5'), ('Hz^0.5', 's^-0.5'), ('K^1.5', 'mK^(3/2)'),
+            ('C^0.5', 'e^(1/2)'), ('m^(1/3)', 'nm^(1/3)'), ('angstrom^-2.5', 'nm^(-5/2)'), ('m^(4/3)', 'm*m^(1/3)')]
 
 
 def _o_indep(ctx, np, uc, s1, s2, xs, cfgs, si_vals, dims):
@@ -2212,6 +2563,8 @@ def search(ctx, broken):
             _apply(cfg)
             vals = _unit_fr(uc)
             strings = gen_strings(rng, t.names, vals, per, per // 4)
+            if cfg is cfgs[0] or cfg is cfgs[-1]:
+                strings += [('parse:malformed', x, None) for x in MALFORMED]       # the whole fixed list, twice per run
             for kind, s, tree in strings:
                 ctx.stats.case('oracle:' + kind, (_cfg_str(cfg), s))
                 _guard(ctx, 'parse', {'op': 'parse', 'cfg': cfg, 'string': s}, _o_parse, ctx, uc, cfg, s, vals)
@@ -2358,7 +2711,10 @@ MANIFEST = {
             'expression tree in the ordinary grammar (any blanks, redundant parentheses, negative exponents, any depth) '
             'parses to the value of the tree; set/get are mutually inverse for a non-zero factor; an expression that '
             'evaluates to (v, dimension d) under SI evaluates to v * m^d1 kg^d2 s^d3 C^d4 K^d5 under any base-unit '
-            'scalings, hence conversions between equal-dimension expressions do not depend on the working units; after '
+            'scalings, hence conversions between equal-dimension expressions do not depend on the working units — for '
+            'integer exponents over any field without assumption, and for rational exponents (Pa*m^0.5, MPa*m^(3/2), s^-1.5; '
+            'rational dimension exponents) over any ordered field with the power function a parameter obeying x^(a+b) = '
+            'x^a x^b, (xy)^a = x^a y^a, x^1 = x (the power-of-a-power law is derived); after '
             'reset_units with any non-over-determined choice of <= 4 named kinds every chosen unit of that dimension is '
             'exactly 1 (square root as a parameter); set_literal("value unit"), value a number or nested list / tuple '
             'literal, is the array of the value times the parsed factor; the module as a session (state = the five base '
@@ -2373,7 +2729,8 @@ MANIFEST = {
             'against the session model.',
     'note': 'Trusted: Lean kernel + propext/Classical.choice/Quot.sound; the table translators (harness/props/c09.py); '
             'numericalunits and numpy; x**0.5 is a parameter with r*r = x; float rounding by first-order bounds derived '
-            'from the expression tree; non-integer exponents, rtHz, exotic float() spellings and two malformed classes '
+            'from the expression tree; float ** float for non-integer exponents is a parameter with three assumed laws; '
+            'irrational exponents, rtHz, exotic float() spellings and two malformed classes '
             '(leading ^ loops forever, a parenthesised lone * or / acts as an operator) are outside the model.',
     'technique': 'Lean 4 theorems over a hand-written model + translator-generated tables + differential correspondence',
 }
